@@ -310,6 +310,71 @@ def deep_chain(n):
     return build(n, False), build(n, True)
 
 
+# ---- one stored compound value used several times inside ONE operand ----
+SHARED_SUBS = ["(K i1 i2)", "(K (K i1 i2) i3)", "(K (L i1) i2)", "(K i1 (L))", "(K C[61] c62)", "(L i1 i2)", "(L)", "(L (K i1 i2))",
+               "(P i1 i2)", "(P (K i1 i2) U)"]
+# containers: %(d)s is the defining occurrence `#c=<sub>`, %(r)s every later occurrence `$c`
+SHARED_CONTAINERS = ["(K %(d)s %(r)s)", "(K (K %(d)s %(r)s) %(r)s)", "(K %(d)s (K i3 %(r)s))", "(K (K %(d)s i3) %(r)s)",
+                     "(K (L %(d)s) %(r)s)", "(K %(d)s (L %(r)s))", "(L %(d)s %(r)s)", "(L %(d)s i3 %(r)s)", "(P %(d)s %(r)s)",
+                     "(K (P %(d)s %(r)s) %(r)s)", "(L (K %(d)s %(r)s) %(r)s)", "(P (K %(d)s %(r)s) (K %(r)s %(r)s))"]
+
+
+def text_of(v):
+    """a parsed value (Python tuples) back to case text, nothing shared"""
+    k = v[0]
+    if k in "UTF" and len(v) == 1: return k
+    if k == "num":
+        return ("i" + hx(v[1])) if isinstance(v[1], int) else enc_f(v[1])
+    if k == "char": return "c%x" % v[1]
+    if k == "byte": return "b%x" % v[1]
+    if k == "sym": return "s%x" % v[1]
+    if k == "chars": return "C[" + ",".join("%x" % c for c in v[1]) + "]"
+    if k == "bytes": return "B[" + ",".join("%x" % c for c in v[1]) + "]"
+    if k == "symlist": return "S[" + ",".join("%x" % c for c in v[1]) + "]"
+    if k == "list": return "(L" + "".join(" " + text_of(x) for x in v[1]) + ")"
+    return "(%s %s %s)" % ({"pair": "P", "concat": "K"}[k], text_of(v[1]), text_of(v[2]))
+
+
+def sharing_cases(container, sub):
+    """cases for one operand that uses the stored value `sub` several times: against the same tree with
+    every occurrence built separately, against its flat item list, against the tree in which the
+    repeated occurrences are missing (must differ), and against itself"""
+    shared = container % {"d": "#c=" + sub, "r": "$c"}
+    unshared = container % {"d": sub, "r": sub}
+    alt = container % {"d": sub, "r": "!" + sub}
+    out = [(shared, unshared), (unshared, shared), (shared, alt), (shared, shared.replace("#c=", "#c2=").replace("$c", "$c2")),
+           ("#w=" + shared, "$w")]
+    v = P(unshared).value()
+    if v[0] == "concat":
+        items = flat(v)
+        out.append((shared, "(L" + "".join(" " + text_of(x) for x in items) + ")"))
+        out.append(("(L" + "".join(" " + text_of(x) for x in items) + ")", shared))
+        n_sub = len(flat(P(sub).value()))
+        for cut in {n_sub, len(items) - n_sub}:      # what a walk that visits `sub` only once would see
+            if 0 < cut < len(items) or (cut == 0 and items):
+                once = "(L" + "".join(" " + text_of(x) for x in items[:cut]) + ")"
+                out.append((shared, once))
+                out.append((once, shared))
+        out.append((shared, sub))
+        out.append((sub, shared))
+    return out
+
+
+def share_in_tree(rng, t):
+    """pick a compound sub-tree of t and use it a second time elsewhere in t; returns (shared text, unshared text) or None"""
+    allp = positions(t)
+    cands = [(a, b) for a in allp if a and get_at(t, a)[0] in ("K", "L", "P")
+             for b in allp if b and b > a and b[:len(a)] != a and a[:len(b)] != b]
+    if not cands:
+        return None
+    src, dst = rng.choice(cands)
+    sub = get_at(t, src)
+    sub_text = show(sub)
+    shared = show(set_at(set_at(t, dst, ["leaf", "$c"]), src, ["leaf", "#c=" + sub_text]))
+    unshared = show(set_at(t, dst, sub))
+    return shared, unshared
+
+
 def small_trees():
     A = SMALL_LEAVES
     out = list(A)
@@ -360,6 +425,18 @@ def gen_cases(tier, seed):
         cases.append("%s %s" % (ts, u))
         cases.append("%s %s" % (u, ts))
         triples.append((ts, u, m))
+    # 3b. one stored concatenation / list / pair used several times inside one operand (all templates x all subs),
+    #     and the same inside random trees
+    for cont in SHARED_CONTAINERS:
+        for sub in SHARED_SUBS:
+            for x, y in sharing_cases(cont, sub):
+                cases.append("%s %s" % (x, y))
+    for _ in range(3000 if tier == "thorough" else 400):
+        t = gen_tree(rng, rng.randint(2, 4), rng.randint(2, 4))
+        r = share_in_tree(rng, t)
+        if r:
+            shared, unshared = r
+            cases += ["%s %s" % (shared, unshared), "%s %s" % (unshared, shared), "%s %s" % (shared, show(near_miss(rng, t)))]
     # 4. mismatch deep inside nested data, long tails pending on the stack
     for n in (range(1, 40) if tier == "thorough" else (1, 2, 3, 5, 8, 13, 21)):
         good, bad = deep_chain(n)
@@ -461,7 +538,7 @@ def run(tier, seed):
         v.tie_failure("model driver build failed: " + outm[-300:])
     cases, exhaustive_set, triples = gen_cases(tier, seed)
     hist = {"cases": len(cases), "model_disagreements": 0, "property_failures": 0, "expected_equal": 0, "expected_different": 0,
-            "symmetry_pairs_checked": 0, "transitivity_triples_checked": 0, "reflexive_cases": 0, "with_shared_subvalues": 0,
+            "symmetry_pairs_checked": 0, "transitivity_triples_checked": 0, "reflexive_cases": 0, "with_shared_subvalues": 0, "shared_compound_used_twice_in_one_operand": 0,
             "built_by_alternate_route": 0}
     depth_hist, size_hist = {}, {}
     distinct, samples = set(), []
@@ -483,6 +560,7 @@ def run(tier, seed):
                 exp = struct_eq(a, b)
                 hist["expected_equal" if exp else "expected_different"] += 1
                 if "$" in case: hist["with_shared_subvalues"] += 1
+                if "#c=(" in case and "$c" in case: hist["shared_compound_used_twice_in_one_operand"] += 1
                 if "!" in case: hist["built_by_alternate_route"] += 1
                 sz = min(size(a) + size(b), 60) // 10 * 10
                 size_hist[str(sz)] = size_hist.get(str(sz), 0) + 1
@@ -557,7 +635,7 @@ def run(tier, seed):
                 "kind incl. NaN, signed zeros, i32 bounds as floats, multi-byte text; seeded random trees (depth <= 4, width <= 4) each "
                 "against itself, a copy built by another route, itself through a shared address, two equal variants (re-associated "
                 "concatenations, list <-> concatenation, int <-> float, char <-> one-element list), a near-miss mutant and an "
-                "unrelated tree, in both orders; shared sub-values; deep chains and wide lists whose only difference is far inside, "
+                "unrelated tree, in both orders; shared sub-values; one stored concatenation / list / pair used two or three times inside one operand (12 container shapes x 10 sub-values, and inside random trees) against the same tree with every occurrence built separately, its flat item list and the once-only sequences; deep chains and wide lists whose only difference is far inside, "
                 "so many pairs are pending on the operand stack at the early exit. Each case runs Equal and NotEqual on both data "
                 "implementations; non-trivial = at least one operand is not a leaf",
         "samples": samples,
